@@ -42,6 +42,9 @@ pub enum TaskKind {
     SpawnOn(usize),
     /// task that never completes and re-wakes itself forever (a busy arbiter)
     Busy,
+    /// task that does not yield to its runtime until `run`/`run_with_code` has returned on the
+    /// system thread (an arbiter stuck in a long synchronous task while the system is stopped)
+    BlockUntilRun,
 }
 
 #[derive(Serialize, Deserialize, Clone, Debug, PartialEq)]
@@ -149,6 +152,8 @@ struct State {
     /// the system arbiter's own loop was told to stop (its tasks keep being polled by the system's
     /// LocalSet after that, so "a task runs" no longer implies "the arbiter accepts commands")
     sys_arb_stopped: bool,
+    run_returned: bool,
+    blocked_until_run: bool,
     /// reference model of the system's command channel: what has been sent and not yet taken
     sysq: std::collections::VecDeque<SysCmd>,
     /// arbiter ids the reference controller has registered
@@ -583,6 +588,25 @@ impl Future for TaskFut {
                         }
                     }
                 }
+                TaskKind::BlockUntilRun => {
+                    // only on `Arbiter::new` arbiters (on the system arbiter it would block the
+                    // very thread that is to return from `run`)
+                    if sim.st.lock().unwrap().tasks[id].arb != usize::MAX {
+                        sim.st.lock().unwrap().blocked_until_run = true;
+                        loop {
+                            {
+                                let st = sim.st.lock().unwrap();
+                                // a thread blocked in a join on this arbiter would wait for ever,
+                                // and with it possibly the stop this task is waiting for
+                                let someone_joins = st.slots.iter().any(|s| matches!(s, SlotState::BlockedJoin(_)));
+                                if st.run_returned || st.aborted || someone_joins {
+                                    break;
+                                }
+                            }
+                            sim.yield_now();
+                        }
+                    }
+                }
                 TaskKind::SpawnOn(n) => {
                     let target = {
                         let st = sim.st.lock().unwrap();
@@ -916,6 +940,7 @@ fn sim_thread(sim: Arc<Sim>, cfg: Config) {
     };
     {
         let mut st = sim.st.lock().unwrap();
+        st.run_returned = true;
         evpush(&mut st.events, format!("run_with_code -> {res:?}"));
         let first = st.first_stop;
         match (&res, first) {
@@ -1005,6 +1030,16 @@ fn sim_thread(sim: Arc<Sim>, cfg: Config) {
 
 fn final_oracles(st: &mut State, prop: &str) -> Option<Violation> {
     if let Some(v) = st.violation.take() {
+        if v.class == "hang" && st.exits_processed >= 1 && !st.run_returned {
+            return Some(Violation::new(
+                "run-never-returned",
+                format!(
+                    "the system controller took {} Exit command(s) off its channel but run/run_with_code had not returned after {HARD_YIELD_CAP} scheduling decisions{}",
+                    st.exits_processed,
+                    if st.blocked_until_run { " (an arbiter is busy in a task that ends once run has returned)" } else { "" }
+                ),
+            ));
+        }
         return Some(v);
     }
     if prop != "C10" {
@@ -1090,7 +1125,13 @@ fn gen_kind(rng: &mut Rng, c10: bool) -> TaskKind {
         6 => TaskKind::ViaCurrent,
         7 => TaskKind::StopSystem(*rng.pick(&[0, 7, -1])),
         8 => TaskKind::SpawnOn(rng.usize_below(3)),
-        9 => TaskKind::Busy,
+        9 => {
+            if rng.chance(1, 3) {
+                TaskKind::BlockUntilRun
+            } else {
+                TaskKind::Busy
+            }
+        }
         10 => TaskKind::StopSelf,
         _ => TaskKind::Fut,
     }
@@ -1190,6 +1231,8 @@ impl Engine for RtSim {
                 loop_ended: Vec::new(),
                 refused_before_join: false,
                 sys_arb_stopped: false,
+                run_returned: false,
+                blocked_until_run: false,
                 sysq: Default::default(),
                 registered: Vec::new(),
                 must_end: Vec::new(),
@@ -1253,6 +1296,9 @@ impl Engine for RtSim {
         if st.exits_processed >= 2 {
             ctx.bump("probe.second_exit_processed");
         }
+        if st.blocked_until_run && st.run_returned {
+            ctx.bump("probe.arbiter_blocked_across_stop");
+        }
         {
             let stop_seq = st.first_stop.map(|s| s.0).unwrap_or(u64::MAX);
             if st.arbs.iter().any(|a| a.new_returned_seq > stop_seq && st.must_end.contains(&a.arb_id)) {
@@ -1303,7 +1349,7 @@ impl Engine for RtSim {
     }
     fn required_probes(prop: &str, _tier: Tier) -> Vec<&'static str> {
         if prop == "C09" {
-            vec!["probe.second_stop", "probe.arbiter_struct_dropped", "probe.arbiter_stopped_early", "fault.busy_arbiter"]
+            vec!["probe.second_stop", "probe.arbiter_struct_dropped", "probe.arbiter_stopped_early", "fault.busy_arbiter", "probe.arbiter_blocked_across_stop", "probe.second_exit_processed"]
         } else {
             vec!["probe.task_sent_after_stop", "probe.marker_via_current", "fault.task_panic", "probe.prior_system_on_thread", "probe.spawn_refused_before_join"]
         }
